@@ -42,7 +42,9 @@ def setup(ctx):
     from gemdat.jumps import Jumps
 
     _mon.attach(Collective, '__init__', label='Collective.__init__')
-    _mon.attach(Jumps, 'collective', label='Jumps.collective')
+    from .. import retain as _rt
+
+    _mon.attach(Jumps, 'collective', label='Jumps.collective', retain=_rt.collective)
 
 
 def teardown(ctx):
@@ -56,6 +58,9 @@ def row_key(ev):
 
 def pick_cutoff(rng, dsite):
     vals = dsite[np.triu_indices(len(dsite), 1)]
+    if rng.uniform() < 0.1:
+        # degenerate cut-offs: nothing is closer than 0 or a negative distance; 1e-9 admits only shared sites
+        return float(rng.choice([0.0, -1.0, 1e-9]))
     for _ in range(100):
         c = float(rng.uniform(0.5, 1.6) * np.median(vals)) if rng.uniform() < 0.8 else float(rng.uniform(0.5, 4.0))
         if np.min(np.abs(vals - c)) > 1e-6 and abs(c) > 1e-6:
